@@ -35,6 +35,19 @@ def draw_hier(draw, max_ids=5, max_parts=4, max_dim=3, p_red=0.2, p_cov=0.3, kin
                                     ['id-%s' % chr(97 + i) for i in range(n_ids)]]))
     z = draw(gen.mat(gen.real(-2.5, 2.5), n_ids, n_dim))
     x = popgen.x_from_z(pop, n_ids, theta, z, cov)
+    psi_zero = False
+    if popgen.has(pop, 'trunc') and gen.chance(draw, 0.15):
+        # an individual value exactly ON the truncation point 0 (inside the support: the density is finite there); only
+        # for dimensions that are mechanistic parameters of the individual model (a scale of 0 is outside ITS domain)
+        d0_, cands_ = 0, []
+        for lf in popgen.leaves(pop):
+            if lf['kind'] == 'trunc':
+                cands_ += [d for d in range(d0_, d0_ + lf['n_dim']) if d < base['n_par']]
+            d0_ += lf['n_dim']
+        if cands_:
+            x = np.array(x, dtype=float)
+            x[draw(st.integers(0, n_ids - 1)), cands_[draw(st.integers(0, len(cands_) - 1))]] = 0.0
+            psi_zero = True
     _, _, hd = ref.hier_layout(pop, n_ids)
     vec = [gen.r6(float(v)) for v in x[:, hd].flatten()] + list(theta)
     late = False
@@ -50,8 +63,13 @@ def draw_hier(draw, max_ids=5, max_parts=4, max_dim=3, p_red=0.2, p_cov=0.3, kin
         # heterogeneous models constructed with their default n_ids=1; the hierarchical
         # likelihood is then responsible for setting the number of individuals
         late = gen.chance(draw, 0.6)
+    explicit_last = False
+    if pop['kind'] == 'comp' and ref.n_hetero_leaves(pop) >= 2 and not _cov_hetero(pop) and not late \
+            and all(q['kind'] in ref.ELEM for q in pop['parts']):
+        explicit_last = bool(gen.chance(draw, 0.6))
     prior = llbuild.draw_prior(draw, ref.pop_n_par(pop, n_ids), list(theta)) if with_prior else None
-    return dict(pop=pop, n_ids=n_ids, lls=lls, ids=ids, cov=cov, vec=vec, prior=prior, late=late, zero_scale=zero, nested_red=nested_red)
+    return dict(pop=pop, n_ids=n_ids, lls=lls, ids=ids, cov=cov, vec=vec, prior=prior, late=late, zero_scale=zero, nested_red=nested_red,
+                explicit_last=explicit_last, psi_zero=psi_zero)
 
 
 def _cov_hetero(pop):
@@ -92,6 +110,8 @@ def build_population(spec, dim_names):
         pm = chi.ReducedPopulationModel(base)
         pm.fix_parameters({names_full[j]: float(v) for j, v in zip(pop['fixed'], pop['values'])})
         return pm
+    if spec.get('explicit_last') and not spec.get('late'):
+        return ref.build_pop_last_explicit(spec['pop'], dim_names, n_ids)
     return ref.build_pop(spec['pop'], dim_names, None if spec.get('late') else n_ids)
 
 
@@ -166,6 +186,10 @@ def classify(spec):
         labs.append('late_n_ids')
         if pop['kind'] == 'red':
             labs.append('late_n_ids:reduced')
+    if spec.get('explicit_last'):
+        labs.append('hetero_last_explicit')
+    if spec.get('psi_zero'):
+        labs.append('trunc_value_on_boundary')
     if spec.get('zero_scale'):
         labs.append('noncentered_zero_scale')
     if spec.get('nested_red'):
